@@ -6,8 +6,17 @@ V = os.path.dirname(os.path.dirname(os.path.abspath(__file__)))
 names = sys.argv[1:] or sorted(os.path.basename(d) for d in glob.glob(os.path.join(V, 'seeded', 'C*-*')) if os.path.isdir(d))
 out_path = os.path.join(V, 'seeded', 'current_results.json')
 res = json.load(open(out_path)) if os.path.exists(out_path) else {}
+lean = os.environ.get('REEVAL_LEAN') == '1'      # lean: patch + quick check only (the demonstrations were run when the change was first confirmed)
 for n in names:
     prop = n.split('-')[0]
+    if lean:
+        p = subprocess.run([sys.executable, os.path.join(V, 'tools', 'mutant.py'), '--patch', os.path.join(V, 'seeded', n, 'patch.diff'), '--',
+                            os.path.join(V, 'check'), prop], capture_output=True, text=True, cwd=V)
+        m = re.search(r'\[mutant\] exit=(\d+)', p.stdout + p.stderr)
+        res[n] = {prop: {'quick': int(m.group(1))}} if m else {'error': (p.stdout + p.stderr)[-300:]}
+        print(n, res[n], flush=True)
+        json.dump(res, open(out_path, 'w'), indent=1, sort_keys=True)
+        continue
     p = subprocess.run([sys.executable, os.path.join(V, 'tools', 'eval_seeded.py'), '--src', os.path.join(V, 'seeded', n), '--prop', prop,
                         '--name', n + '-re', '--skip-tests'], capture_output=True, text=True, cwd=V)
     line = [l for l in p.stdout.splitlines() if l.startswith(n + '-re')]
